@@ -619,5 +619,114 @@ pub fn run(cfg: &RunCfg) -> Report {
         }
         Err(e) => rep.harness_errors.push(e),
     }
+    if cfg.replay.is_none() {
+        list_values(cfg, &mut rep);
+    }
     rep
+}
+
+/// Constants of list types (lists of integers nested to depth 3, empty lists at every level): the initialiser the
+/// TypeScript backend prints = the model of its `LinkedArrayLikeValue` arm (`Ts/Values.renderList`), = the text
+/// written down from the description, and its brackets are balanced.
+#[derive(Clone, Debug)]
+enum Lv {
+    Int(i64),
+    List(Vec<Lv>),
+}
+impl Lv {
+    fn asn(&self) -> String {
+        match self {
+            Lv::Int(n) => n.to_string(),
+            Lv::List(xs) if xs.is_empty() => "{ }".into(),
+            Lv::List(xs) => format!("{{ {} }}", xs.iter().map(|x| x.asn()).collect::<Vec<_>>().join(", ")),
+        }
+    }
+    fn sx(&self) -> String {
+        match self {
+            Lv::Int(n) => n.to_string(),
+            Lv::List(xs) => format!("( l {} )", xs.iter().map(|x| x.sx()).collect::<Vec<_>>().join(" ")),
+        }
+    }
+    fn ts(&self) -> String {
+        match self {
+            Lv::Int(n) => n.to_string(),
+            Lv::List(xs) => format!("[{}]", xs.iter().map(|x| x.ts()).collect::<Vec<_>>().join(",")),
+        }
+    }
+}
+fn gen_lv(rng: &mut Rng, depth: usize) -> Lv {
+    if depth == 0 {
+        return Lv::Int(rng.range(-20, 5000));
+    }
+    let n = [0usize, 0, 1, 2, 3, 5][rng.below(6)];
+    Lv::List((0..n).map(|_| gen_lv(rng, depth - 1)).collect())
+}
+fn list_values(cfg: &RunCfg, rep: &mut Report) {
+    let mut rng = Rng::new(cfg.seed ^ 0xC18_715);
+    let n = cfg.budget(150, 3000);
+    let mut vals: Vec<(usize, Lv)> = Vec::new();
+    for k in 0..n {
+        let depth = 1 + k % 3;
+        vals.push((depth, gen_lv(&mut rng, depth)));
+    }
+    for chunk in vals.chunks(50).enumerate().map(|(ci, c)| (ci, c.to_vec())).collect::<Vec<_>>() {
+        let (ci, chunk) = chunk;
+        let mut text = String::from("Ts-List-Values DEFINITIONS AUTOMATIC TAGS ::= BEGIN\nLst1 ::= SEQUENCE OF INTEGER\nLst2 ::= SEQUENCE OF Lst1\n");
+        for (j, (depth, v)) in chunk.iter().enumerate() {
+            let ty = match (depth, j % 2) {
+                (1, 0) => "SEQUENCE OF INTEGER".to_string(),
+                (1, _) => "Lst1".to_string(),
+                (2, 0) => "SEQUENCE OF SEQUENCE OF INTEGER".to_string(),
+                (2, _) => "Lst2".to_string(),
+                (_, 0) => "SEQUENCE OF SEQUENCE OF SET OF INTEGER".to_string(),
+                _ => "SEQUENCE OF Lst2".to_string(),
+            };
+            text.push_str(&format!("lv{ci}x{j} {ty} ::= {}\n", v.asn()));
+        }
+        text.push_str("END\n");
+        let Outcome::Ok { generated, .. } = compile_ts(&[text.clone()]) else {
+            rep.count("list-values:compile-failed");
+            continue;
+        };
+        let sq: String = generated.split_whitespace().collect::<Vec<_>>().join(" ");
+        let reqs: Vec<String> = chunk.iter().map(|(_, v)| format!("tslist {}", v.sx())).collect();
+        let Ok(ans) = run_driver(&reqs) else {
+            rep.harness_errors.push("driver failed on tslist".into());
+            continue;
+        };
+        for (j, ((_, v), a)) in chunk.iter().zip(ans.iter()).enumerate() {
+            rep.evaluations += 1;
+            let name = format!("lv{ci}x{j}");
+            let case = json!({"kind": "list-value", "asn1": format!("{name} ::= {}", v.asn())});
+            let Some(pos) = sq.find(&format!("export const {name} = ")) else {
+                rep.count("list-values:no-constant");
+                continue;
+            };
+            let init: String = sq[pos + format!("export const {name} = ").len()..].chars().take_while(|c| *c != ';').collect::<String>().split_whitespace().collect();
+            rep.count("list-values");
+            let model = unhex(a).or_else(|| unhex(a.trim_start_matches('x'))).unwrap_or_default();
+            if model != init {
+                rep.disagree(json!({"case": case, "model": model, "implementation": init, "model_of": "Ts.Values.renderList"}));
+            }
+            let mut depth = 0i64;
+            let mut ok = true;
+            for ch in init.chars() {
+                match ch {
+                    '[' => depth += 1,
+                    ']' => {
+                        depth -= 1;
+                        if depth < 0 {
+                            ok = false;
+                        }
+                    }
+                    _ => {}
+                }
+            }
+            if !ok || depth != 0 {
+                rep.unsat("", model == init, json!({"why": format!("the brackets of the constant `{init}` are not balanced"), "case": case}));
+            } else if init != v.ts() {
+                rep.unsat("", model == init, json!({"why": format!("the constant is `{init}`, the value is `{}`", v.ts()), "case": case}));
+            }
+        }
+    }
 }
